@@ -46,14 +46,15 @@ func compilerResidualBounds(cfg Config) (map[string]string, error) {
 var hashSizes = map[string]int64{"crypto/sha1.New": 20, "crypto/sha256.New": 32, "crypto/sha512.New": 64, "crypto/sha256.New224": 28, "crypto/sha512.New384": 48, "crypto/sha512.New512_224": 28, "crypto/sha512.New512_256": 32, "crypto/md5.New": 16}
 
 type c10ctx struct {
-	c     *Check
-	w     *World
-	tb    *TB
-	iv    *IV
-	ef    *Effects
-	scope map[*ssa.Function]bool
-	sumLo *big.Int
-	sumHi *big.Int
+	c        *Check
+	w        *World
+	tb       *TB
+	iv       *IV
+	ef       *Effects
+	scope    map[*ssa.Function]bool
+	exported map[*ssa.Function]bool
+	sumLo    *big.Int
+	sumHi    *big.Int
 	// costRule: also flag loops bounded only by the length of their input that accumulate a string by
 	// concatenation (work quadratic in a request field)
 	costRule bool
@@ -164,8 +165,61 @@ func (x *c10ctx) checkIndexSite(f *ssa.Function, in ssa.Instruction, coll, idx s
 			return
 		}
 	}
+	// relational precondition: coll is a slice parameter P, idx <= Q+off for an integer parameter Q, and every
+	// call site of this (unexported, statically called) function passes len(argP) >= argQ+off+1
+	if nonNeg && su.OK {
+		if why, ok := x.relationalPre(f, coll, su); ok {
+			x.c.OK(rule, fn, construct, why, x.w.InstrPos(in))
+			return
+		}
+	}
 	why := fmt.Sprintf("the index can be %s while the length is only known to be %s", ii, ln)
 	x.c.Bad(rule, fn, construct, "possible index out of range: "+why, x.w.InstrPos(in))
+}
+
+// relationalPre proves idx < len(P) from the callers: idx <= Q+off (su) with P, Q parameters of f.
+func (x *c10ctx) relationalPre(f *ssa.Function, coll ssa.Value, su SymBound) (string, bool) {
+	P, isP := coll.(*ssa.Parameter)
+	if !isP || x.exported[f] {
+		return "", false
+	}
+	if _, isSl := P.Type().Underlying().(*types.Slice); !isSl {
+		return "", false
+	}
+	pi, qi := -1, -1
+	for i, p := range f.Params {
+		if p == P {
+			pi = i
+		}
+		if x.tb.Of(p).String() == su.Base {
+			qi = i
+		}
+	}
+	if pi < 0 || qi < 0 {
+		return "", false
+	}
+	sites := x.w.CallSites(f)
+	if len(sites) == 0 {
+		return "", false
+	}
+	for _, s := range sites {
+		if !x.w.InModule(s.Parent()) || s.Common().StaticCallee() != f {
+			return "", false
+		}
+		args := s.Common().Args
+		ap, aq := args[pi], args[qi]
+		// symbolic: len(ap) == base+d, aq <= base+c, c+off < d
+		ls, sq := x.iv.LenSym(ap), x.iv.SymUpper(aq, 0)
+		if ls.OK && sq.OK && ls.Base == sq.Base && sq.Off+su.Off < ls.Off {
+			continue
+		}
+		lt, qt := x.LenAt(ap, s.Block()), x.iv.At(aq, s.Block())
+		if lt.Lo != nil && qt.Hi != nil && new(big.Int).Add(qt.Hi, big.NewInt(su.Off)).Cmp(lt.Lo) < 0 {
+			continue
+		}
+		return "", false
+	}
+	return fmt.Sprintf("0 <= index <= %s%+d and every one of the %d call sites passes a slice longer than that", clip(su.Base, 40), su.Off, len(sites)), true
 }
 
 func (x *c10ctx) checkSliceSite(f *ssa.Function, s *ssa.Slice, rule string) {
@@ -686,6 +740,7 @@ func runC10(c *Check, w *World) {
 		return Itv{new(big.Int).Exp(bi(10), a.Lo, nil), new(big.Int).Exp(bi(10), a.Hi, nil)}, true
 	}
 	x.assumeSuiteContract()
+	x.exported = exported
 	x.liftPreconditions(exported)
 
 	// --- bounds: compiler residuals, each discharged by the interval engine ---
